@@ -29,6 +29,7 @@ type ProgOpts struct {
 	StuckXor bool // allow exclusive gateways with no default and possibly no true condition
 	ActivityDefault bool // allow default flows on activities
 	DataConds bool // conditions may read boolean results written by tasks that certainly ran before (also by other tokens: sub-process content, joined parallel branches)
+	EmptyBranches bool // parallel and inclusive blocks may have branches without any activity (a flow straight from the fork to the join)
 	SubInLoop bool // allow sub-processes inside loops (always on since the re-entry repair; the tag is kept as a reach probe)
 	ForkInOr bool // allow forking blocks inside inclusive branches (known-finding trigger)
 	OrInAnd bool // allow inclusive joins inside parallel branches (known-finding trigger)
@@ -263,6 +264,13 @@ func (pg *progGen) blockInner(g *Graph, from string, cond *Cond, outPos int, dep
 		for i := 0; i < nb; i++ {
 			pg.inAnd++
 			pg.avail = append([]string{}, baseAvail...) // a sibling branch's writes are concurrent, not upstream
+			if pg.opts.EmptyBranches && pg.d.N(4) == 3 {
+				g.connect(d, a.ID, j.ID, nil, -1)
+				pg.inAnd--
+				pg.desc.WriteString("- | ")
+				pg.tags["empty-branch"] = true
+				continue
+			}
 			last, _ := pg.block(g, a.ID, nil, -1, depth+1)
 			added = append(added, pg.avail[len(baseAvail):]...)
 			pg.inAnd--
@@ -296,6 +304,16 @@ func (pg *progGen) blockInner(g *Graph, from string, cond *Cond, outPos int, dep
 				fmt.Fprintf(&pg.desc, "%s=%v: ", c.Var, pg.condHolds(c))
 			} else {
 				pg.desc.WriteString("default: ")
+			}
+			if pg.opts.EmptyBranches && pg.d.N(4) == 3 {
+				fl := g.connect(d, o.ID, j.ID, c, -1)
+				if isDef {
+					o.Default = fl.ID
+				}
+				joined++
+				pg.desc.WriteString("- | ")
+				pg.tags["empty-branch"] = true
+				continue
 			}
 			pg.inOr++
 			baseOr := len(pg.avail)
